@@ -164,6 +164,16 @@ impl Vfs {
     }
 
     pub fn update_config(&mut self, emmyrc: Arc<Emmyrc>) {
+        // The syntax trees depend on the configuration (language level, require-like and special
+        // functions, non-standard symbols): parse the loaded files again, so that a following
+        // reindex sees what a fresh analysis under this configuration would see.
+        for (id, data) in self.file_data.iter().enumerate() {
+            if let Some(data) = data {
+                let parse_config = emmyrc.get_parse_config(&mut self.node_cache);
+                let tree = LuaParser::parse(&data.content, parse_config);
+                self.tree_map.insert(FileId { id: id as u32 }, tree);
+            }
+        }
         self.emmyrc = Some(emmyrc);
     }
 
